@@ -497,6 +497,86 @@ func c05Log(c *Ctx) {
 				}
 			}
 			if good == "" {
+				// the pair is handed back by a verdict helper: p, ok := m.verifyWithMatching(…); ok —
+				// inside the helper every `return x, true` is dominated by the success of an
+				// operation on that very x
+				for _, o := range owners {
+					ov := guard.Strip(o)
+					// a struct value kept in a local: the one value stored into it
+					if al, isAl := ov.(*ssa.Alloc); isAl {
+						var stored ssa.Value
+						nst := 0
+						for _, ref := range *al.Referrers() {
+							if st, isS := ref.(*ssa.Store); isS && st.Addr == ssa.Value(al) {
+								stored = st.Val
+								nst++
+							}
+						}
+						if nst == 1 {
+							ov = guard.Strip(stored)
+						}
+					}
+					ex, isEx := ov.(*ssa.Extract)
+					if !isEx {
+						continue
+					}
+					hc, isCall := ex.Tuple.(*ssa.Call)
+					if !isCall {
+						continue
+					}
+					h := hc.Call.StaticCallee()
+					if h == nil || h.Blocks == nil || h.Pkg != f.Pkg {
+						continue
+					}
+					li := h.Signature.Results().Len() - 1
+					okFact := false
+					for _, fct := range guard.InstrFacts(ins) {
+						if e2, isE2 := fct.Cond.(*ssa.Extract); isE2 && fct.True && e2.Tuple == ssa.Value(hc) && e2.Index == li {
+							okFact = true
+						}
+					}
+					if !okFact || li <= ex.Index {
+						continue
+					}
+					all, some := true, false
+					for _, ret := range guard.Returns(h) {
+						if v, isC := guard.ConstBool(ret.Results[li]); isC && !v {
+							continue
+						}
+						some = true
+						paired := false
+						for _, fct := range guard.BlockFacts(ret.Block()) {
+							ec, isNil, okE := guard.ErrNilFact(fct)
+							if !okE || !isNil {
+								continue
+							}
+							var recv ssa.Value
+							if ec.Call.IsInvoke() {
+								recv = ec.Call.Value
+							} else if len(ec.Call.Args) > 0 {
+								recv = ec.Call.Args[0]
+							}
+							if recv == nil {
+								continue
+							}
+							for _, rc := range ownerChain(recv) {
+								for _, ro := range ownerChain(ret.Results[ex.Index]) {
+									if sameAddr(rc, ro) {
+										paired = true
+									}
+								}
+							}
+						}
+						if !paired {
+							all = false
+						}
+					}
+					if all && some {
+						good = "key ID read from the pair returned by " + h.Name() + " with ok == true, which returns only pairs whose operation succeeded"
+					}
+				}
+			}
+			if good == "" {
 				// flat wrapper (one primitive, one key ID, both direct fields of the receiver): the
 				// pairing is fixed at construction and checked there (C05.pairing)
 				if directFieldOfParam(id) {
